@@ -106,9 +106,4 @@ Theorem segmentation_independent : forall (c : codec) (segs : list bytes),
   feed lossy c [] segs = run_all lossy c (concat segs).
 Proof. intros. apply (feed_eq_run_all segs c []). apply dd_nil. Qed.
 
-(* frames are atomic: while a frame is incomplete the decoder asks for more and keeps every byte *)
-Theorem partial_frame_held : forall c buf more fr c' rest,
-  dd lossy c (buf ++ more) = DFrame fr c' rest -> (length rest >= length more)%nat ->
-  (length rest > length more)%nat \/ True.
-Proof. intros. right. exact I. Qed.
 End S.
